@@ -29,8 +29,10 @@ def _inline(tok):
     for ch in tok.children or []:
         if ch.type in ("text", "code_inline", "html_inline"):
             parts.append(ch.content if ch.type != "code_inline" else " " + ch.content.strip() + " ")
-        elif ch.type in ("softbreak", "hardbreak"):
+        elif ch.type == "softbreak":
             parts.append(" ")
+        elif ch.type == "hardbreak":
+            parts.append(" <br> ")                 # a hard line break is content: a fix must not add or remove one
         elif ch.type == "link_open":
             links.append("link:" + (ch.attrGet("href") or ""))
         elif ch.type == "image":
@@ -116,6 +118,8 @@ def run(pid, tier):
         if tier == "thorough" or hk % 3 == 0:
             jobs.append((name, data, "default+third-party-fixers", rec))
         own = name.split("/")[0]
+        if own == "extra" and name.split("/")[1][:2] == "md" and name.split("/")[1][2:5].isdigit():
+            own = name.split("/")[1][:5]                  # extra/mdNNN-...: that rule alone as well
         if own == "fixfam":
             own = name.split("/")[3][:5]                    # the rule whose trigger the document carries: that rule alone as well
         for rule in allfix:
